@@ -57,7 +57,10 @@ def r09_1(ctx):
                     pv = pv or Prov(f)
                     k = pv.operand(t["args"][1])
                     nm = k[1][1] if k[0] == "const" and isinstance(k[1], tuple) and k[1][0] == "named" else None
-                    usage.setdefault(f.key, []).append(nm)
+                    owner = f
+                    while owner.is_closure and owner.parent in F.fns:
+                        owner = F.fns[owner.parent]
+                    usage.setdefault(owner.key, []).append(nm)
         want = {
             "api::rule::Rule::path_and_query": ["api::rule::URL_ENCODE_SET", "api::rule::QUERY_ENCODE_SET"],
             "http::query::sanitize_url": ["http::query::URL_ENCODE_SET"],
@@ -110,6 +113,12 @@ def r09_2(ctx):
         for p in Sym(g, copies=True).paths():
             has = [v for a, v in p.conds if a[0] == "disc" and mentions_field(a[1], "query", "api::source::Source")]
             bs = any(e[0] == "call" and e[1] == "http::request::Request::build_sorted_query" for e in p.events)
+            # query.and_then(Request::build_sorted_query) is the call on the Some side
+            for e in p.events:
+                if e[0] == "call" and e[1] in ("std::option::Option::and_then", "std::option::Option::map") and len(e[2]) == 2 and mentions_field(e[2][0], "query", "api::source::Source") \
+                        and e[2][1] == ("const", ("fn", "http::request::Request::build_sorted_query")):
+                    bs = True
+                    rows.setdefault("Some", set()).add(True)
             if has:
                 rows.setdefault(has[0], set()).add(bs)
         r.ob("sort:rule-side", rows.get("Some") == {True}, g.site, "a rule with a query always goes through Request::build_sorted_query: %s" % rows)
@@ -117,7 +126,7 @@ def r09_2(ctx):
         r.analysed(h)
         okb = any(cal and cal.name == "collect" and any("BTreeMap" in F.types[x]["s"] for x in cal.substs) for bi, t, cal in h.calls())
         r.ob("sort:build_sorted_query", okb, h.site, "build_sorted_query collects the parsed parameters into a BTreeMap")
-        lps = for_loops(h)
+        lps = for_loops(F.loop_form(h))
         r.ob("sort:build_sorted_query:iterates-the-map", any(mentions(lp.source, lambda x: x[0] == "call" and x[1].rsplit("::", 1)[1] == "collect") for lp in lps), h.site, "and rebuilds the query by iterating it")
         # both sides parse with the same function
         for fn in (f, h):
@@ -164,6 +173,13 @@ def r09_3(ctx):
                 v = [x for a, x in p.conds if a[0] == "disc"]
                 rows[v[0] if v else None] = p.end[1]
         okm = mentions_field(rows.get("Some", ()), "path_and_query_matching") and mentions_field(rows.get("None", ()), "path_and_query")
+        if not okm and set(rows) == {None}:
+            # the same as one expression: matching.as_ref().unwrap_or(&stored)
+            e = rows[None]
+            while e[0] == "call" and e[1].rsplit("::", 1)[1] in ("clone", "to_string", "to_owned") and e[2]:
+                e = e[2][0]
+            okm = e[0] == "call" and e[1].rsplit("::", 1)[1] == "unwrap_or" and len(e[2]) == 2 and mentions_field(e[2][0], "path_and_query_matching") \
+                and mentions_field(e[2][1], "path_and_query") and not mentions_field(e[2][1], "path_and_query_matching")
         r.ob("case:request-uses-matching-form", okm, g.site, "Request::path_and_query() returns the matching form when present")
         # rule side: new_with_markers lower-cases the static form iff the flag and passes the flag on
         h = F.fn("marker::StaticOrDynamic::new_with_markers")
